@@ -3343,9 +3343,11 @@ Octagonal_Shape<T>::simplify_using_context_assign(const Octagonal_Shape& y) {
   // Filter away the case where `x' contains `y'
   // (this subsumes the case when `y' is empty).
   if (x.contains(y)) {
+    // The intersection of `x' and `y' is `y' (which may alias `x').
+    const bool bool_result = !y.is_empty();
     Octagonal_Shape<T> res(dim, UNIVERSE);
     x.m_swap(res);
-    return false;
+    return bool_result;
   }
 
   // Filter away the case where `x' is empty.
